@@ -44,10 +44,10 @@ pub fn plan_for(prop: &str, tier: &str) -> Option<Plan> {
     let mut exhaustive = false;
     let (items, level, rule, nontrivial): (Vec<PlanItem>, &'static str, &'static str, &'static [&'static str]) = match prop {
         "C01" => (
-            vec![prog(General, k(40_000)), prog(Sessions, k(20_000)), prog(Inbound, k(20_000)), prog(Limits, k(10_000))],
+            vec![prog(General, k(40_000)), prog(Sessions, k(20_000)), prog(Inbound, k(20_000)), prog(Limits, k(10_000)), scn(Scenario::Bytes(1), k(6_000))],
             "exploration",
-            "random programs over all operations x partial writes (down to 1 byte) x stalls x cancellation at any Pending x transport errors x fresh/resumed reconnects; every byte accepted by write() is parsed per transport by the strict reference decoder, and every offer made while the stream is inside a packet must continue that packet. non-trivial = a partial write or a cancellation actually happened in the run; distinct = event-kind trace hash",
-            &["partial_write", "cancel_at_stall", "cancel_at_read_or_timer"],
+            "random programs over all operations x partial writes (down to 1 byte) x stalls x cancellation at any Pending x transport errors x fresh/resumed reconnects; every byte accepted by write() is parsed per transport by the strict reference decoder, and every offer made while the stream is inside a packet must continue that packet; Bytes(1) adds hostile inbound traffic (mutated server packets, zero packet identifiers) whose answers must still be well-formed. non-trivial = a partial write or a cancellation actually happened in the run; distinct = event-kind trace hash",
+            &["partial_write", "cancel_at_stall", "cancel_at_read_or_timer", "inbound_zero_packet_id"],
         ),
         "C02" => (
             vec![prog(Qos1, k(50_000)), prog(General, k(20_000)), prog(Sessions, k(15_000)), prog(Aging, k(500)), enumerated(Scenario::FaultEnum(1), 241_920)],
